@@ -1,4 +1,5 @@
 import Verif.Lemmas.Await
+import Verif.Lemmas.ClientApi
 
 /-! # C01 — a request completes only with the response that bears its own id
 
@@ -7,7 +8,7 @@ arbitrary classifier `R`, an arbitrary positive poll period, both tie orders and
 any length.  `isMatch cfg m` = "`m` is a response or error response (no method) whose id equals
 the id sent, JSON type included". -/
 namespace Verif.Props.C01
-open Verif.Model.Await
+open Verif.Model.Await Verif.Model.ClientApi Verif.Lemmas.ClientApi
 variable {α : Type}
 
 /-- (a)+(b) A normal return is the payload of the FIRST message of the history that is a
@@ -122,6 +123,147 @@ theorem c01_siblings_independent (R : Int → Bool) (s0 : Nat)
     simp only [runSeq, List.map_cons, ih]
     simp [withToken]
 
+/-! ## One connection, consecutive requests; the high-level client (`MCPClient`)
+
+`connSeq` / `clientSeq` (`Model/ClientApi.lean`): the requests share ONE read stream; what an earlier
+request did not consume (late answers to a request that timed out, duplicates, strays) is still in the
+stream when the next request starts. -/
+
+/-- On one connection every request that returns normally returns the payload of the first response
+bearing ITS OWN id among the messages no earlier request consumed — leftovers of earlier requests
+(whatever ids they bear) included in the search, never returned unless they bear this id. -/
+theorem c01_connection_result_sound (R : Int → Bool) (start used : Nat) (ev : List (Nat × In α))
+    (reqs : List (Cfg α × Nat)) :
+    ∀ x ∈ (connSeq R start used ev reqs).zip reqs, ∀ p, x.1.2.2.outcome = .returned p →
+      used ≤ x.1.2.1 ∧ ∃ pre a post, ev.drop x.1.2.1 = pre ++ (a, In.resp x.2.1.reqId p) :: post
+        ∧ NoMatch x.2.1 pre := by
+  induction reqs generalizing start used with
+  | nil => simp [connSeq]
+  | cons r rest ih =>
+    obtain ⟨cfg, gap⟩ := r
+    intro x hx p hp
+    simp only [connSeq, List.zip_cons_cons, List.mem_cons] at hx
+    rcases hx with rfl | hx
+    · simp only at hp ⊢
+      obtain ⟨pre, a, post, he, hn⟩ := run_returned_sound R cfg _ p hp
+      obtain ⟨pre', a', post', he', hn', _⟩ := shift_decomp _ _ _ _ _ _ cfg he hn
+      exact ⟨Nat.le_refl _, pre', a', post', he', hn'⟩
+    · obtain ⟨h1, h2⟩ := ih _ _ x hx p hp
+      exact ⟨by omega, h2⟩
+
+/-- a message is consumed by at most one request of the connection: the requests read disjoint,
+consecutive segments of the stream -/
+theorem c01_connection_segments (R : Int → Bool) (start used : Nat) (ev : List (Nat × In α))
+    (reqs : List (Cfg α × Nat)) :
+    List.Pairwise (fun x y => x.2.1 + x.2.2.consumed ≤ y.2.1) (connSeq R start used ev reqs)
+      ∧ ∀ x ∈ connSeq R start used ev reqs, used ≤ x.2.1 := by
+  induction reqs generalizing start used with
+  | nil => simp [connSeq]
+  | cons r rest ih =>
+    obtain ⟨cfg, gap⟩ := r
+    obtain ⟨h1, h2⟩ := ih (start + (run R cfg (shift start (ev.drop used))).time + gap)
+      (used + (run R cfg (shift start (ev.drop used))).consumed)
+    simp only [connSeq, List.pairwise_cons, List.mem_cons]
+    refine ⟨⟨fun y hy => by simpa using h2 y hy, h1⟩, ?_⟩
+    rintro x (rfl | hx)
+    · simp
+    · have := h2 x hx; omega
+
+/-- `MCPClient`: a call that returns normally returns the payload of the first response bearing the
+id of ITS OWN request among the messages nothing earlier on the connection consumed — in
+particular never the (possibly duplicated or late) answer to the `initialize` request the call
+itself issued, nor anything addressed to an earlier call. -/
+theorem c01_client_result_sound (R : Int → Bool) (okInit : α → Bool) (b : Bool) (start used : Nat)
+    (ev : List (Nat × In α)) (calls : List (Call α)) :
+    ∀ x ∈ (clientSeq R okInit b start used ev calls).zip calls, ∀ s u o p,
+      x.1.req = some (s, u, o) → o.outcome = .returned p →
+      used ≤ u ∧ ∃ pre a post, ev.drop u = pre ++ (a, In.resp x.2.req.reqId p) :: post
+        ∧ NoMatch x.2.req pre := by
+  induction calls generalizing b start used with
+  | nil => simp [clientSeq]
+  | cons c rest ih =>
+    intro x hx s u o p hreq hp
+    cases b with
+    | true =>
+      simp only [clientSeq, List.zip_cons_cons, List.mem_cons] at hx
+      rcases hx with rfl | hx
+      · simp only [Option.some.injEq, Prod.mk.injEq] at hreq
+        obtain ⟨rfl, rfl, rfl⟩ := hreq
+        obtain ⟨pre, a, post, he, hn⟩ := run_returned_sound R c.req _ p hp
+        obtain ⟨pre', a', post', he', hn', _⟩ := shift_decomp _ _ _ _ _ _ c.req he hn
+        exact ⟨Nat.le_refl _, pre', a', post', he', hn'⟩
+      · obtain ⟨h1, h2⟩ := ih _ _ _ x hx s u o p hreq hp
+        exact ⟨by omega, h2⟩
+    | false =>
+      simp only [clientSeq] at hx
+      split at hx
+      · simp only [List.zip_cons_cons, List.mem_cons] at hx
+        rcases hx with rfl | hx
+        · simp only [Option.some.injEq, Prod.mk.injEq] at hreq
+          obtain ⟨rfl, rfl, rfl⟩ := hreq
+          obtain ⟨pre, a, post, he, hn⟩ := run_returned_sound R c.req _ p hp
+          obtain ⟨pre', a', post', he', hn', _⟩ := shift_decomp _ _ _ _ _ _ c.req he hn
+          exact ⟨by omega, pre', a', post', he', hn'⟩
+        · obtain ⟨h1, h2⟩ := ih _ _ _ x hx s u o p hreq hp
+          exact ⟨by omega, h2⟩
+      · simp only [List.zip_cons_cons, List.mem_cons] at hx
+        rcases hx with rfl | hx
+        · simp at hreq
+        · obtain ⟨h1, h2⟩ := ih _ _ _ x hx s u o p hreq hp
+          exact ⟨by omega, h2⟩
+
+/-- once initialized, always initialized: an initialized client never issues `initialize` again and
+every call issues exactly its own request -/
+theorem c01_client_initialized_stays (R : Int → Bool) (okInit : α → Bool) (start used : Nat)
+    (ev : List (Nat × In α)) (calls : List (Call α)) :
+    ∀ x ∈ clientSeq R okInit true start used ev calls, x.init = none ∧ x.req.isSome = true := by
+  induction calls generalizing start used with
+  | nil => simp [clientSeq]
+  | cons c rest ih =>
+    intro x hx
+    simp only [clientSeq, List.mem_cons] at hx
+    rcases hx with rfl | hx
+    · simp
+    · exact ih _ _ x hx
+
+/-- a call's own request is written exactly when the client was initialized before the call or the
+`initialize` request issued by the call ended with an accepted result; a call whose `initialize`
+failed writes nothing else -/
+theorem c01_client_request_iff_initialized (R : Int → Bool) (okInit : α → Bool) (b : Bool)
+    (start used : Nat) (ev : List (Nat × In α)) (calls : List (Call α)) :
+    ∀ x ∈ clientSeq R okInit b start used ev calls,
+      x.req.isSome = (match x.init with | none => true | some oi => initOk okInit oi) := by
+  induction calls generalizing b start used with
+  | nil => simp [clientSeq]
+  | cons c rest ih =>
+    intro x hx
+    cases b with
+    | true =>
+      simp only [clientSeq, List.mem_cons] at hx
+      rcases hx with rfl | hx
+      · simp
+      · exact ih _ _ _ x hx
+    | false =>
+      simp only [clientSeq] at hx
+      split at hx
+      · rename_i hok
+        simp only [List.mem_cons] at hx
+        rcases hx with rfl | hx
+        · simp [hok]
+        · exact ih _ _ _ x hx
+      · rename_i hok
+        simp only [List.mem_cons] at hx
+        rcases hx with rfl | hx
+        · simp [hok]
+        · exact ih _ _ _ x hx
+
+/-- an uninitialized client issues `initialize` first, on every call, until one succeeds -/
+theorem c01_client_uninitialized_initializes (R : Int → Bool) (okInit : α → Bool)
+    (start used : Nat) (ev : List (Nat × In α)) (c : Call α) (rest : List (Call α)) :
+    ((clientSeq R okInit false start used ev (c :: rest)).head?.bind (·.init)).isSome = true := by
+  simp only [clientSeq]
+  split <;> simp
+
 /-! Non-vacuity: a concrete history meeting the hypotheses of `c01_complete` (a same-id server
 request and a foreign response precede the answer) and one meeting `c01_timeout_complete`. -/
 def exCfg : Cfg Nat :=
@@ -140,5 +282,29 @@ example : (run (fun _ => true) exCfg
 
 example : NoMatch exCfg [(3, .req (.str "r1") "m"), (9, .notif "n"), (10, .batch)] := by
   intro x hx; simp at hx; rcases hx with rfl | rfl | rfl <;> simp [isMatch]
+
+/-! Non-vacuity of the client theorems: an uninitialized client's first call issues `initialize`, whose
+answer arrives twice; the duplicate and a stray are still in the stream when the call's own request
+starts, and the call returns the payload bearing its own id.  With an `initialize` that fails the
+call's request is never issued, and the next call initializes again. -/
+def exInit : Cfg Nat := { exCfg with reqId := .str "init-1", D := 5000 }
+def exReq : Cfg Nat := { exCfg with reqId := .str "r1", D := 5000 }
+def exStream : List (Nat × In Nat) :=
+  [(10, .resp (.str "init-1") 1), (12, .resp (.str "init-1") 2), (40, .resp (.str "zz") 3),
+   (50, .resp (.str "r1") 42)]
+def exOutcomes (l : List (CallObs Nat)) : List (Option Nat × Option (Nat × Nat × Option Nat)) :=
+  l.map (fun x => (x.init.bind (fun o => match o.outcome with | .returned p => some p | _ => none),
+    x.req.map (fun r => (r.1, r.2.1, match r.2.2.outcome with | .returned p => some p | _ => none))))
+
+example : exOutcomes (clientSeq (fun _ => true) (fun _ => true) false 0 0 exStream [⟨exInit, exReq, 5⟩])
+    = [(some 1, some (10, 1, some 42))] := by
+  simp [exOutcomes, clientSeq, initOk, run, loop, shift, exStream, exInit, exReq, exCfg, classify,
+    cancelVisible, arrivesInTime]
+
+example : exOutcomes (clientSeq (fun _ => true) (fun p => p != 1) false 0 0 exStream
+      [⟨exInit, exReq, 5⟩, ⟨exInit, exReq, 5⟩])
+    = [(some 1, none), (some 2, some (15, 2, some 42))] := by
+  simp [exOutcomes, clientSeq, initOk, run, loop, shift, exStream, exInit, exReq, exCfg, classify,
+    cancelVisible, arrivesInTime]
 
 end Verif.Props.C01
